@@ -16,20 +16,19 @@ theorem prov_nstart {s s' : State} {nid t : Nat} {e : Bool} {v : Nat} (h : Prov 
     split at hs <;> simp at hs <;> subst hs <;> provn_close
 
 set_option maxHeartbeats 4000000 in
-theorem prov_nrun {s s' : State} {nid : Nat} (h : Prov s) (hi : Inv s) (hs : stepNrun s nid = some s') : Prov s' := by
+theorem prov_nrun {cfg : Cfg} {s s' : State} {nid : Nat} (hg : cfg.std = true) (h : Prov s) (hi : Inv s)
+    (hs : stepNrun cfg s nid = some s') : Prov s' := by
   unfold stepNrun at hs
+  std_norm hg at hs
+  simp only [casStep] at hs
   split at hs
   · simp at hs
   · split at hs
-    · simp at hs; subst hs; provn_close
-    · split at hs
-      · simp at hs
-      · split at hs <;> simp at hs <;> subst hs <;> provn_close
-    · split at hs
-      · simp at hs
-      · split at hs <;> simp at hs <;> subst hs <;> provn_close
-    · simp at hs
-
+    all_goals (try (split at hs))
+    all_goals (try (split at hs))
+    all_goals (try (simp at hs))
+    all_goals (try subst hs)
+    all_goals provn_close
 set_option maxHeartbeats 4000000 in
 theorem prov_nwrite {s s' : State} {nid : Nat} {o : Outcome} (h : Prov s) (hi : Inv s)
     (hs : stepNwrite s nid o = some s') : Prov s' := by
